@@ -31,6 +31,9 @@ pub(crate) struct ReqSocket {
   ingress_engine: AddressedIngressEngine,
   pending_pipe_senders: ParkingLotMutex<HashMap<usize, PipeMessageSender>>,
   state: ParkingLotMutex<ReqState>,
+  /// Serialises `send()` calls: the state check, the awaited send and the state update of one
+  /// call must not interleave with those of another.
+  send_serializer: tokio::sync::Mutex<()>,
   reply_available_notifier: Arc<Notify>,
   pipe_read_to_endpoint_uri: RwLock<HashMap<usize, String>>,
 }
@@ -44,6 +47,7 @@ impl ReqSocket {
       ingress_engine: AddressedIngressEngine::new(max_conn),
       pending_pipe_senders: ParkingLotMutex::new(HashMap::new()),
       state: ParkingLotMutex::new(ReqState::ReadyToSend),
+      send_serializer: tokio::sync::Mutex::new(()),
       reply_available_notifier: Arc::new(Notify::new()),
       pipe_read_to_endpoint_uri: RwLock::new(HashMap::new()),
     }
@@ -118,6 +122,9 @@ impl ISocket for ReqSocket {
         "REQ send: Cleared MORE flag from user-provided message."
       );
     }
+
+    // Concurrent senders queue up here; the loser of a race then sees `ExpectingReply` below.
+    let _send_permit = self.send_serializer.lock().await;
 
     // === LOCK SCOPE 1: Check State ===
     {
